@@ -73,6 +73,10 @@ BindScale == { [shape |-> "bind-late", n |-> k] : k \in {1, 2} \cup (112..130) \
 BlockScale == { [shape |-> sh, n |-> k] : sh \in {"nested-def-then", "nested-def-twice"}, k \in {1, 2, 3, 8, 14, 15, 16, 17} }
 \* short-circuit jumps across the one-byte boundary of the 16-bit operand, taken and not taken
 JumpScale == { [shape |-> sh, n |-> k] : sh \in {"long-and", "long-or", "long-and-nt", "long-or-nt"}, k \in {10, 200, 250, 254, 255, 256, 257, 258, 260, 300, 510, 512, 514, 1000, 4000} }
+\* n pairs of redundant parentheses around one literal: layout, whatever n is (no limit of the language is near: nothing is pushed)
+ParenScale == { [shape |-> "redundant-parens", n |-> k] : k \in {1, 2, 3, 100, 199, 200, 201, 202, 255, 256, 257, 300, 511, 512, 513, 1000} }
+\* n broken print statements, one per line, then a good one: every line gets a diagnostic of its own, however many there are
+ErrScale == { [shape |-> "many-errors", n |-> k] : k \in {1, 2, 3, 9, 10, 11, 12, 20, 49, 50, 51, 99, 100, 101, 255, 256, 300, 1000} }
 PickScale == /\ phase = 0 /\ phase' = 1 /\ UNCHANGED bs
              /\ \/ Scope = "scale" /\ \E c \in ScaleCases : sc' = c
                 \/ Scope = "varscale" /\ \E c \in VarScale : sc' = c
@@ -80,6 +84,8 @@ PickScale == /\ phase = 0 /\ phase' = 1 /\ UNCHANGED bs
                 \/ Scope = "blockscale" /\ \E c \in BlockScale : sc' = c
                 \/ Scope = "bindscale" /\ \E c \in BindScale : sc' = c
                 \/ Scope = "constscale" /\ \E c \in ConstScale : sc' = c
+                \/ Scope = "parenscale" /\ \E c \in ParenScale : sc' = c
+                \/ Scope = "errscale" /\ \E c \in ErrScale : sc' = c
 Next == Grow \/ PickLit \/ PickBase \/ Damage \/ PickScale
 Spec == Init /\ [][Next]_vars
 \* what the language says about the jump-distance shapes: the short-circuit jump spans 2 + 2m bytes for m = (n - 2) \div 2 added terms;
@@ -101,6 +107,8 @@ ExpectOf(c) == CASE c.shape \in {"long-and", "long-or"} ->
                  [] c.shape \in {"long-and-nt", "long-or-nt"} -> (IF JumpSpan(c.n) > Limits.jump THEN <<99>> ELSE Dec(1 + ((c.n - 2) \div 2)))
                  [] c.shape \in {"many-vars-read", "many-vars-in-block"} -> (IF c.n + 2 > Limits.stack THEN <<>> ELSE Dec((c.n - 1) % 7))   \* the two operands need two more slots
                  [] c.shape = "vars-distinct" -> Dec(200 + (c.n - 1))
+                 [] c.shape = "redundant-parens" -> <<55>>
+                 [] c.shape = "many-errors" -> <<101>>       \* <<101>> = "e": rejected at compile time, one diagnostic on each of the lines 1..n, nothing printed
                  [] c.shape = "many-consts" -> <<50, 10, 55>>     \* the block prints q = 2, then the toplevel prints 7
                  [] c.shape = "bind-late" -> <<98>>          \* <<98>> = "b": a struct binding of the one block of type 'target' (name "t", k = n), two result blocks
                  \* every block prints its depth on the way in; "then": each level opens one more sibling child (printing 0) before it closes,
@@ -112,5 +120,5 @@ ExpectOf(c) == CASE c.shape \in {"long-and", "long-or"} ->
 DiagCol(c) == IF c.shape \in {"long-and", "long-or", "long-and-nt", "long-or-nt"} /\ JumpSpan(c.n) > Limits.jump
               THEN (IF c.shape \in {"long-or", "long-or-nt"} THEN 12 ELSE 13) + (2 * ((c.n - 2) \div 2) + 1) + 1 + 1 ELSE 0
 Emit == (Scope = "bytes" \/ phase >= 1) =>
-        PrintT(<<"CASE", ToJson([fam |-> "total", src |-> bs, shape |-> sc.shape, n |-> sc.n, expect |-> ExpectOf(sc), dcol |-> DiagCol(sc), nt |-> (Len(bs) >= 2 \/ Scope \in {"scale", "varscale", "jumps", "blockscale", "bindscale", "constscale"})])>>)
+        PrintT(<<"CASE", ToJson([fam |-> "total", src |-> bs, shape |-> sc.shape, n |-> sc.n, expect |-> ExpectOf(sc), dcol |-> DiagCol(sc), nt |-> (Len(bs) >= 2 \/ Scope \in {"parenscale", "errscale", "scale", "varscale", "jumps", "blockscale", "bindscale", "constscale"})])>>)
 ====
